@@ -36,7 +36,7 @@ int g_child_ran, g_child_sig; uint64_t g_child_val, g_child_last;
 #define WF_FIBER_REQUIRES(f) \
   __CPROVER_requires(__CPROVER_is_fresh(f, sizeof(JanetFiber))) \
   __CPROVER_requires(WF_STATUS((f)->flags)) \
-  __CPROVER_requires((f)->frame >= JANET_FRAME_SIZE && (f)->frame <= (f)->stackstart - JANET_FRAME_SIZE && \
+  __CPROVER_requires((f)->frame >= JANET_FRAME_SIZE && (f)->stackstart >= 2 * JANET_FRAME_SIZE && (f)->frame <= (f)->stackstart - JANET_FRAME_SIZE && \
                      (f)->stackstart <= (f)->stacktop && (f)->stacktop <= (f)->capacity && (f)->capacity <= (1 << 28) FIB_EXTRA_WF(f)) \
   __CPROVER_requires(__CPROVER_is_fresh((f)->data, (size_t)(f)->capacity * sizeof(Janet))) \
   /* the current frame: a bytecode function (func, def valid) or a C function frame (func == NULL) */ \
@@ -110,6 +110,8 @@ __CPROVER_requires(g_ran == 0 && g_child_sig == -1)
 __CPROVER_requires(__CPROVER_pointer_equals(g_fiber, fiber))
 __CPROVER_assigns(*fiber, *out, FIB_VM, g_ran, g_child_ran, g_child_sig, g_child_val, g_child_last)
 __CPROVER_assigns(fiber->child != (void *)0: *(fiber->child))
+/* outside the VM, the only stack slot written is the first parameter slot of the current frame (value passed to a new fiber) */
+__CPROVER_assigns(fiber->data[fiber->frame])
 /* the result is a signal, and the status on return equals the returned signal */
 __CPROVER_ensures(IS_SIGNAL(__CPROVER_return_value))
 __CPROVER_ensures(FIB_ST(fiber->flags) == (int) __CPROVER_return_value)
